@@ -101,6 +101,7 @@ type Exec struct {
 	globFacts   []globFact // facts about constant globals of dependencies, added to the queries that mention them
 	sealedImpls map[string][]int
 	pureSeen  map[string]bool
+	usedText  map[string]bool // clause texts that produced at least one obligation in the function being verified
 	nilable   map[*Term]string // sweep: terms that may be nil by local provenance (see nilcheck.go)
 	pureDepth int
 	pending   []pendingFact
@@ -255,6 +256,9 @@ func (ex *Exec) addFacts(st *State, fs []*Term) {
 func (ex *Exec) oblige(fr *Frame, st *State, kind, label string, goal *Term, pos token.Pos, text string) {
 	if ex.spec > 0 {
 		return
+	}
+	if ex.usedText != nil && text != "" {
+		ex.usedText[text] = true
 	}
 	fname := fr.label
 	name := fname + "#" + kind
